@@ -1224,6 +1224,24 @@ fire("c12-make-cse-wraps-constants", ["C12"], PR,
      "            return CommonSubexpression(field, prefix, scope)",
      "        return CommonSubexpression(field, prefix, scope)",
      "O/make_common_subexpression")
+fire("c12-make-cse-array-entries-not-wrapped", ["C12"], PR,
+     "                result[i] = make_common_subexpression(\n"
+     "                        field[i], component_prefix, scope)",
+     "                result[i] = field[i]",
+     "K/make_common_subexpression/componentwise")
+fire("c12-make-cse-multivector-coeffs-not-wrapped", ["C12"], PR,
+     "            new_data[bits] = make_common_subexpression(\n"
+     "                    coeff, component_prefix, scope)",
+     "            new_data[bits] = coeff",
+     "K/make_common_subexpression/componentwise")
+silent_multi("c12-make-cse-loops-renamed", ["C12"], PR, [
+    ("        for bits, coeff in field.data.items():",
+     "        coefficients = field.data\n"
+     "        for bits, coeff in coefficients.items():"),
+    ("        for i in numpy.ndindex(logical_shape):",
+     "        for idx in numpy.ndindex(field.shape):\n"
+     "            i = idx"),
+])
 silent("c12-silent-visit-form", ["C12"], CSF,
        "        if key in self.subexpr_counts:\n            self.subexpr_counts[key] += 1\n\n"
        "            # do not re-traverse (and thus re-count subexpressions)\n"
@@ -2415,3 +2433,89 @@ fire("c11-collector-refuses-quotient-terms", ["C11"], COL,
      "        elif isinstance(mul_term, (Power, AlgebraicLeaf, Quotient)):",
      "        elif isinstance(mul_term, (Power, AlgebraicLeaf)):",
      "S/collector/accepts-distributor-terms:Quotient")
+
+fire("c11-dist-leading-times-expanded-result", ["C11"], DSF,
+     "                       dist(pymbolic.flattened_product(\n"
+     "                           [*leading, sumchild, rest]))\n",
+     "                       pymbolic.flattened_product(leading) * dist(sumchild*rest)\n",
+     "P/DistributeMapper/map_product/products-of-results-redistributed")
+fire("c11-dist-nested-operator-form", ["C11"], DSF,
+     "                       dist(pymbolic.flattened_product(\n"
+     "                           [*leading, sumchild, rest]))\n",
+     "                       dist(pymbolic.flattened_product(leading)\n"
+     "                            * (sumchild * rest))\n",
+     "P/DistributeMapper/map_product/products-of-results-redistributed")
+silent("c11-dist-nested-flattened-form", ["C11"], DSF,
+       "                       dist(pymbolic.flattened_product(\n"
+       "                           [*leading, sumchild, rest]))\n",
+       "                       dist(pymbolic.flattened_product(\n"
+       "                           [pymbolic.flattened_product(leading),\n"
+       "                            sumchild * rest]))\n")
+fire("c11-dist-rest-not-redistributed", ["C11"], DSF,
+     "                       dist(pymbolic.flattened_product(\n"
+     "                           [*leading, sumchild, rest]))\n",
+     "                       pymbolic.flattened_product(\n"
+     "                           [*leading, sumchild, rest])\n",
+     "P/DistributeMapper/map_product/products-of-results-redistributed")
+
+fire_multi("c11-power-of-power-kept", ["C11"], DSF, [
+    ("        if isinstance(newbase, Power) and isinstance(expr.exponent, int) \\\n"
+     "                and isinstance(newbase.exponent, int):\n",
+     "        if False:\n")],
+    "P/DistributeMapper/map_power/mapped-base-Power-rewritten")
+fire("c11-power-of-product-kept-for-int", ["C11"], DSF,
+     "        if isinstance(newbase, Product):\n"
+     "            return self.rec(pymbolic.flattened_product([\n",
+     "        if isinstance(newbase, Product) and not isinstance(expr.exponent, int):\n"
+     "            return self.rec(pymbolic.flattened_product([\n",
+     "P/DistributeMapper/map_power/mapped-base-Product-rewritten")
+silent("c11-power-of-product-only-positive-int", ["C11"], DSF,
+       "        if isinstance(newbase, Product):\n"
+       "            return self.rec(pymbolic.flattened_product([\n",
+       "        if isinstance(newbase, Product) and isinstance(expr.exponent, int) \\\n"
+       "                and expr.exponent > 0:\n"
+       "            return self.rec(pymbolic.flattened_product([\n")
+silent_multi("c11-power-cases-reordered", ["C11"], DSF, [
+    ("        if isinstance(newbase, Power) and isinstance(expr.exponent, int) \\\n"
+     "                and isinstance(newbase.exponent, int):\n",
+     "        int_exponent = isinstance(expr.exponent, int)\n"
+     "        if int_exponent and isinstance(newbase, Power) \\\n"
+     "                and isinstance(newbase.exponent, int):\n"),
+    ("        if isinstance(expr.exponent, int) and expr.exponent > 0:\n",
+     "        if int_exponent and not expr.exponent <= 0:\n")])
+
+POLY = "pymbolic/polynomial.py"
+RAT = "pymbolic/rational.py"
+fire("c01-polynomial-setattr-guard-removed", ["C01"], POLY,
+     "        def __setattr__(self, name, value):\n"
+     "            raise AttributeError(f\"cannot assign to field '{name}'\")\n",
+     "        def __setattr__(self, name, value):\n"
+     "            object.__setattr__(self, name, value)\n",
+     "Polynomial")
+silent("c01-rational-guard-lets-private-names-through", ["C01"], RAT,
+     "        def __setattr__(self, name, value):\n"
+     "            raise AttributeError(f\"cannot assign to field '{name}'\")\n",
+     "        def __setattr__(self, name, value):\n"
+     "            if name.startswith(\"_\"):\n"
+     "                return object.__setattr__(self, name, value)\n"
+     "            raise AttributeError(f\"cannot assign to field '{name}'\")\n")
+silent("c01-rational-guard-unconditional", ["C01"], RAT,
+       "    if __debug__:\n"
+       "        # immutable, like the dataclass-based expression nodes\n"
+       "        def __setattr__(self, name, value):\n"
+       "            raise AttributeError(f\"cannot assign to field '{name}'\")\n\n"
+       "        def __delattr__(self, name):\n"
+       "            raise AttributeError(f\"cannot delete field '{name}'\")\n",
+       "    def __setattr__(self, name, value):\n"
+       "        raise AttributeError(f\"cannot assign to field '{name}'\")\n\n"
+       "    def __delattr__(self, name):\n"
+       "        raise AttributeError(f\"cannot delete field '{name}'\")\n")
+
+fire("c01-rational-guard-lets-fields-through", ["C01"], RAT,
+     "        def __setattr__(self, name, value):\n"
+     "            raise AttributeError(f\"cannot assign to field '{name}'\")\n",
+     "        def __setattr__(self, name, value):\n"
+     "            if name[0].isupper():\n"
+     "                return object.__setattr__(self, name, value)\n"
+     "            raise AttributeError(f\"cannot assign to field '{name}'\")\n",
+     "Rational")
